@@ -1,0 +1,3 @@
+//! Facade for C19: the real router-info and router-list HTML pages of the
+//! BMP unit (`bmp_tcp_in::http` is a private module).
+pub use crate::units::bmp_tcp_in::verif_hooks_c19::Pages;
